@@ -57,6 +57,13 @@ func vMkMid(tag string) *vMid {
 	m.Items = []*vLeaf{vMkLeaf(tag + "_item0"), vMkLeaf(tag + "_item1")}[:ni]
 	m.Vals = []vLeaf{vMkLeafV(tag + "_val0"), vMkLeafV(tag + "_val1")}[:nv]
 	m.Names = []string{verifStr(tag + "_name0"), verifStr(tag + "_name1")}[:nn]
+	// an unset repeated field is a nil slice, not an empty one
+	if ni == 0 && verifBool(tag+"_itemsNil") {
+		m.Items = nil
+	}
+	if nn == 0 && verifBool(tag+"_namesNil") {
+		m.Names = nil
+	}
 	m.Nums = []int64{7}[:nu]
 	switch verifInt(tag + "_anyKind") {
 	case 1:
@@ -225,6 +232,9 @@ func VerifH_keys() {
 			verifAssume(nm >= 0 && nm <= 2)
 			top = &vTop{Id: verifStr("id"), Mid: vMkMid("mid"), Leaf: vMkLeafV("leaf")}
 			top.Mids = []*vMid{vMkMid("mids0"), vMkMid("mids1")}[:nm]
+			if nm == 0 && verifBool("midsNil") {
+				top.Mids = nil
+			}
 		}
 		msg = top
 	case 1: // untyped nil message
